@@ -145,6 +145,18 @@ class Seg11Harness:
                 if self.consume == "request":
                     r = pool.request(method, url)
                     got.update(status=r.status, headers=r.headers, ext=r.extensions, body=r.content)
+                elif self.consume == "read":
+                    with pool.stream(method, url) as r:
+                        got.update(status=r.status, headers=r.headers, ext=r.extensions)
+                        try:
+                            got["body"] = r.read()
+                        except Exception:
+                            # the body could not be read: what does the response object hand out afterwards?
+                            try:
+                                got["after_error"] = ("content", r.content)
+                            except Exception as e2:
+                                got["after_error"] = ("raised", exc_class(e2))
+                            raise
                 else:
                     with pool.stream(method, url) as r:
                         got.update(status=r.status, headers=r.headers, ext=r.extensions)
@@ -161,6 +173,17 @@ class Seg11Harness:
                 if self.consume == "request":
                     r = await pool.request(method, url)
                     got.update(status=r.status, headers=r.headers, ext=r.extensions, body=r.content)
+                elif self.consume == "read":
+                    async with pool.stream(method, url) as r:
+                        got.update(status=r.status, headers=r.headers, ext=r.extensions)
+                        try:
+                            got["body"] = await r.aread()
+                        except Exception:
+                            try:
+                                got["after_error"] = ("content", r.content)
+                            except Exception as e2:
+                                got["after_error"] = ("raised", exc_class(e2))
+                            raise
                 else:
                     async with pool.stream(method, url) as r:
                         got.update(status=r.status, headers=r.headers, ext=r.extensions)
@@ -221,6 +244,10 @@ class Seg11Harness:
         # exception
         e = res[1]
         cls = exc_class(e)
+        ae = got.get("after_error")
+        if ae is not None and ae[0] == "content" and ae[1] != truth["body"].encode():
+            viol("truncated-content-after-error", f"reading the body failed with {cls}, yet response.content afterwards silently hands out {ae[1]!r} "
+                 f"(the server framed {truth['body']!r})")
         if not died:
             viol("spurious-error", f"well-formed response fully delivered in {nreads} reads raised {cls}: {e}")
         ex.outcome = f"exc:{cls}:trunc={bool(died)}"
@@ -231,7 +258,9 @@ def specs(tier):
     out = []
     for (fr, hs, sl, it) in corpus(tier):
         for variant in ("sync", "async"):
-            for consume in ("request", "stream"):
+            for consume in ("request", "stream", "read"):
+                if consume == "read" and (it != 0 or (tier == "quick" and variant == "async" and len(out) % 3)):
+                    continue
                 if tier == "quick" and it == 2 and (variant, consume) != (("sync", "request") if (len(out) % 2) else ("async", "stream")):
                     continue
                 out.append(make_spec(MOD, "Seg11Harness", framing=fr, hs=hs, sl=sl, interim=it, variant=variant, consume=consume))
